@@ -68,6 +68,7 @@ partial def lineLoop {σ : Type} (step : σ → String → σ × String) (h : IO
   else
     let (s', o) := step s l
     out.putStrLn o
+    out.flush          -- one answer per line even into a pipe (the store server is used interactively)
     lineLoop step h out s'
 
 def runDriver {σ : Type} (init : σ) (step : σ → String → σ × String) : IO Unit := do
